@@ -1,11 +1,11 @@
 SPECIFICATION Spec
 CONSTANTS
-  N = 3
+  N = 2
   LimR = 1
   LimD = 1
-  Passes = 1
+  Passes = 2
   AllMem = FALSE
-VIEW View
+VIEW ViewRepeat
 INVARIANT TypeOK
 INVARIANT WorkInvariant
 INVARIANT NeverLost
@@ -15,3 +15,4 @@ INVARIANT CleanAtEnd
 PROPERTY AdjBackwardsOnly
 PROPERTY NoDoubleReverse
 CHECK_DEADLOCK FALSE
+CONSTRAINT PassBound
